@@ -263,8 +263,10 @@ namespace PyOak.Legacy
 open LState
 
 /-- the invariant survives anything that satisfies the detach facts from an attached root -/
-theorem inv_of_detachFacts (Hc : Str → Str) {s s' : LState} {u : Nat} (hI : Inv Hc s)
-    (hF : DetachFacts s s' [u]) (hroot : s.parent u = none) : Inv Hc s' := by
+theorem inv_of_detachFacts (Hc : Str → Str) {X : Nat → (Nat × Str × Option Nat) → Prop} {Y : Nat → Prop}
+    {s s' : LState} {u : Nat} (hI : InvX Hc X Y s)
+    (hF : DetachFacts s s' [u]) (hroot : s.parent u = none)
+    (hXs : ∀ q e, X q e → ¬ Unreg s s' q) : InvX Hc X Y s' := by
   have hS := hF.shr
   -- an unregistered node is `u` or the child of an unregistered node; in the latter case the
   -- node has been cleared
@@ -284,16 +286,17 @@ theorem inv_of_detachFacts (Hc : Str → Str) {s s' : LState} {u : Nat} (hI : In
     rw [hp] at hroot
     cases hroot
   -- children of surviving nodes are untouched and survive
-  have kid_untouched : ∀ w, Att s' w → ∀ e ∈ (s.obj w).kidsPos, s'.obj e.1 = s.obj e.1 ∧ Att s' e.1 := by
-    intro w hw e he
+  have kid_untouched : ∀ w, Att s' w → ∀ e ∈ (s.obj w).kidsPos, ¬ X w e →
+      s'.obj e.1 = s.obj e.1 ∧ Att s' e.1 := by
+    intro w hw e he hx
     have hws : Att s w := hS.att hw
-    obtain ⟨hca, hcp, _, _⟩ := hI.down w hws e he
+    obtain ⟨hca, hcp, _, _⟩ := hI.down w hws e he hx
     have hne : e.1 ≠ u := not_root e.1 w hca hcp hws
     -- if the child were a kid of an unregistered node q, then q = w
     have key : ∀ q, Unreg s s' q → e.1 ∈ (s.obj q).kidList → False := by
       intro q hq hcq
       obtain ⟨e', he', he'1⟩ := (mem_kidList_iff _ _).mp hcq
-      obtain ⟨_, hcp', _, _⟩ := hI.down q hq.1 e' he'
+      obtain ⟨_, hcp', _, _⟩ := hI.down q hq.1 e' he' (fun hx => hXs q e' hx hq)
       rw [he'1, hcp] at hcp'
       have : w = q := att_inj hws hq.1 (Option.some.inj hcp')
       subst this
@@ -307,24 +310,18 @@ theorem inv_of_detachFacts (Hc : Str → Str) {s s' : LState} {u : Nat} (hI : In
       rcases hF.origin e.1 ⟨hca, hx⟩ with h | ⟨q, hq, hcq⟩
       · exact hne (by simpa using h)
       · exact key q hq hcq
-  refine ⟨?_, ?_, ?_, ?_, ?_, ?_⟩
-  rotate_right
-  · -- closed
-    intro v hv c hc
-    rw [hS.size] at hv ⊢
-    rw [hS.kidList_eq] at hc
-    exact hI.closed v hv c hc
+  refine ⟨?_, ?_, ?_, ?_, ?_, ?_, ?_, ?_⟩
   · -- regSound
     intro k v hk
     have : s.lookup k = some v := by rcases hS.reg k with h | h <;> simp_all
     obtain ⟨h1, h2⟩ := hI.regSound k v this
     exact ⟨by rw [hS.size]; exact h1, by rw [hS.id_eq]; exact h2⟩
   · -- down
-    intro w hw e he
+    intro w hw e he hx
     rw [hS.kidsPos_eq] at he
     have hws : Att s w := hS.att hw
-    obtain ⟨hca, hcp, hcf, hci⟩ := hI.down w hws e he
-    obtain ⟨hobj, hatt⟩ := kid_untouched w hw e he
+    obtain ⟨hca, hcp, hcf, hci⟩ := hI.down w hws e he hx
+    obtain ⟨hobj, hatt⟩ := kid_untouched w hw e he hx
     exact ⟨hatt, by rw [hobj, hS.id_eq]; exact hcp, by rw [hobj]; exact hcf, by rw [hobj]; exact hci⟩
   · -- up
     intro x hx p hp
@@ -343,9 +340,9 @@ theorem inv_of_detachFacts (Hc : Str → Str) {s s' : LState} {u : Nat} (hI : In
         exact ⟨f, hf, by rw [hS.kidsPos_eq]; exact hmem⟩
     · rw [ho] at hp; simp [clearP] at hp
   · -- cid
-    intro x hx
+    intro x hx hy
     have hxs : Att s x := hS.att hx
-    rw [hS.cid_eq, hI.cid x hxs]
+    rw [hS.cid_eq, hI.cid x hxs hy]
     congr 1
     symm
     rcases hS.obj x with ho | ho <;> rw [ho] <;> exact cidPre_congr rfl rfl rfl (fun c _ => hS.cid_eq c)
@@ -376,15 +373,38 @@ theorem inv_of_detachFacts (Hc : Str → Str) {s s' : LState} {u : Nat} (hI : In
       · exfalso
         have : Unreg s s' p := ⟨hps, by unfold Att; rw [hS.id_eq, hpid, h]; simp⟩
         exact notCleared (hF.cleared p this x hxkid)
+  · -- closed
+    intro v hv c hc
+    rw [hS.size] at hv ⊢
+    rw [hS.kidList_eq] at hc
+    exact hI.closed v hv c hc
+  · -- noSelf
+    intro x hx
+    apply hI.noSelf x
+    unfold LState.parent at hx ⊢
+    rcases hS.obj x with ho | ho
+    · rw [ho] at hx
+      cases hk : (s.obj x).pid with
+      | none => rw [hk] at hx; cases hx
+      | some k =>
+        rw [hk] at hx; simp only at hx ⊢
+        rcases hS.reg k with h | h <;> simp_all
+    · rw [ho] at hx; simp [clearP] at hx
+  · -- wf
+    intro v
+    have : (s'.obj v).fields = (s.obj v).fields := hS.fields_eq v
+    unfold LObj.wf; rw [this]; exact hI.wf v
 
 end PyOak.Legacy
 
 namespace PyOak.Legacy
 open LState
 
-/-- `detach(only_self)` that returns preserves the invariant (any fuel, both variants) -/
-theorem detachGo_inv (Hc : Str → Str) {s s' : LState} {u fuel : Nat} {os b : Bool} (hI : Inv Hc s)
-    (h : detachGo fuel os s u = (s', some b)) : Inv Hc s' := by
+/-- `detach(only_self)` that returns preserves the invariant (any fuel, both variants), also with
+holes whose parents are not unregistered by the run -/
+theorem detachGo_invX (Hc : Str → Str) {X : Nat → (Nat × Str × Option Nat) → Prop} {Y : Nat → Prop}
+    {s s' : LState} {u fuel : Nat} {os b : Bool} (hI : InvX Hc X Y s)
+    (h : detachGo fuel os s u = (s', some b)) (hXs : ∀ q e, X q e → ¬ Unreg s s' q) : InvX Hc X Y s' := by
   have hF := detachGo_facts fuel os s u b (by rw [h])
   rw [h] at hF
   cases fuel with
@@ -403,6 +423,166 @@ theorem detachGo_inv (Hc : Str → Str) {s s' : LState} {u fuel : Nat} {os b : B
           cases hp : s.parent u with
           | none => rfl
           | some p => simp [hp] at hr
-        exact inv_of_detachFacts Hc hI hF hroot
+        exact inv_of_detachFacts Hc hI hF hroot hXs
+
+theorem detachGo_inv (Hc : Str → Str) {s s' : LState} {u fuel : Nat} {os b : Bool} (hI : Inv Hc s)
+    (h : detachGo fuel os s u = (s', some b)) : Inv Hc s' :=
+  detachGo_invX Hc hI h (fun _ _ hx => hx.elim)
+
+/-! ### `detach_self` in closed form -/
+
+theorem foldl_clearParent_lookup : ∀ (ks : List Nat) (s : LState) (k : Str),
+    (ks.foldl LState.clearParent s).lookup k = s.lookup k := by
+  intro ks; induction ks with
+  | nil => intro s k; rfl
+  | cons c r ih => intro s k; simp only [List.foldl_cons]; rw [ih]; rfl
+
+theorem foldl_clearParent_size : ∀ (ks : List Nat) (s : LState), (ks.foldl LState.clearParent s).size = s.size := by
+  intro ks; induction ks with
+  | nil => intro s; rfl
+  | cons c r ih => intro s; simp only [List.foldl_cons]; rw [ih]; rfl
+
+theorem foldl_clearParent_obj : ∀ (ks : List Nat) (s : LState) (x : Nat),
+    (ks.foldl LState.clearParent s).obj x = if x ∈ ks then clearP (s.obj x) else s.obj x := by
+  intro ks; induction ks with
+  | nil => intro s x; simp
+  | cons c r ih =>
+    intro s x
+    simp only [List.foldl_cons]
+    rw [ih, clearParent_obj']
+    by_cases hxc : x = c
+    · subst hxc; simp
+    · by_cases hxr : x ∈ r <;> simp [hxc, hxr]
+
+theorem foldl_clearParent_idOf (ks : List Nat) (s : LState) (x : Nat) :
+    (ks.foldl LState.clearParent s).idOf x = s.idOf x := by
+  unfold LState.idOf; rw [foldl_clearParent_obj]; split <;> simp
+
+theorem detachKids_onlySelf (rec : LState → Nat → LState × Option Bool) : ∀ (ks : List Nat) (s : LState),
+    detachKids rec true s ks = (ks.foldl LState.clearParent s, true) := by
+  intro ks; induction ks with
+  | nil => intro s; rfl
+  | cons c r ih => intro s; simp only [detachKids, if_true, List.foldl_cons]; exact ih _
+
+/-- `detach_self()` of an attached root, in closed form -/
+theorem detach_self_eq {s : LState} {u fuel : Nat} (ha : Att s u) (hr : s.parent u = none) :
+    detachGo (fuel + 1) true s u =
+      (((s.obj u).kidList.foldl LState.clearParent s).unregister (s.idOf u), some true) := by
+  unfold detachGo
+  have hd : s.detached u = false := (detached_eq_false_iff _ _).mpr ha
+  have hroot : s.isAttachedRoot u = true := by simp [LState.isAttachedRoot, hr, hd]
+  simp only [hd, Bool.false_eq_true, if_false, hroot, Bool.not_true]
+  rw [detachKids_onlySelf]
+  simp only [foldl_clearParent_idOf]
+
+/-! ### a run only unregisters descendants of its start node -/
+
+/-- `q` is reachable from `x` along child links -/
+inductive Desc (s : LState) (x : Nat) : Nat → Prop
+  | refl : Desc s x x
+  | step {q' q : Nat} : Desc s x q' → q ∈ (s.obj q').kidList → Desc s x q
+
+theorem Desc.congr {s t : LState} (h : ∀ v, (t.obj v).kidList = (s.obj v).kidList) {x q : Nat} (hd : Desc s x q) :
+    Desc t x q := by
+  induction hd with
+  | refl => exact .refl
+  | step _ hk ih => exact .step ih (by rw [h]; exact hk)
+
+theorem Desc.trans_kid {s : LState} {x c q : Nat} (hc : c ∈ (s.obj x).kidList) (hd : Desc s c q) : Desc s x q := by
+  induction hd with
+  | refl => exact .step .refl hc
+  | step _ hk ih => exact .step ih hk
+
+theorem Desc.of_leaf {s : LState} {x q : Nat} (hx : (s.obj x).kidList = []) (hd : Desc s x q) : q = x := by
+  induction hd with
+  | refl => rfl
+  | step _ hk ih => rw [ih, hx] at hk; cases hk
+
+theorem detachKids_desc (rec : LState → Nat → LState × Option Bool) (os : Bool)
+    (hfacts : ∀ s c b, (rec s c).2 = some b → Shrinks s (rec s c).1)
+    (hrec : ∀ s c b, (rec s c).2 = some b → ∀ q, Unreg s (rec s c).1 q → Desc s c q) :
+    ∀ (ks : List Nat) (s : LState), (detachKids rec os s ks).2 = true →
+      Shrinks s (detachKids rec os s ks).1 ∧
+      ∀ q, Unreg s (detachKids rec os s ks).1 q → ∃ c ∈ ks, Desc s c q := by
+  intro ks
+  induction ks with
+  | nil => intro s _; exact ⟨Shrinks.refl _, fun q hq => absurd hq.1 hq.2⟩
+  | cons c cs ih =>
+    intro s hfl
+    by_cases hos : os = true
+    · subst hos
+      simp only [detachKids, if_true] at hfl ⊢
+      obtain ⟨h1, h2⟩ := ih (s.clearParent c) hfl
+      refine ⟨(shrinks_clearParent s c).trans h1, ?_⟩
+      intro q hq
+      have : Unreg (s.clearParent c) (detachKids rec true (s.clearParent c) cs).1 q :=
+        ⟨(att_clearParent_iff s c q).mpr hq.1, hq.2⟩
+      obtain ⟨c', hc', hd⟩ := h2 q this
+      exact ⟨c', List.mem_cons_of_mem _ hc', hd.congr (fun v => ((shrinks_clearParent s c).kidList_eq v).symm)⟩
+    · have hos' : os = false := by cases os <;> simp_all
+      subst hos'
+      simp only [detachKids, Bool.false_eq_true, if_false] at hfl ⊢
+      cases hr : rec (s.clearParent c) c with
+      | mk s2 r =>
+        rw [hr] at hfl
+        cases r with
+        | none => simp at hfl
+        | some b =>
+          simp only at hfl ⊢
+          have hS2 : Shrinks (s.clearParent c) s2 := by have := hfacts (s.clearParent c) c b (by rw [hr]); rwa [hr] at this
+          have hD2 := hrec (s.clearParent c) c b (by rw [hr])
+          rw [hr] at hD2
+          obtain ⟨h1, h2⟩ := ih s2 hfl
+          have hS02 : Shrinks s s2 := (shrinks_clearParent s c).trans hS2
+          refine ⟨hS02.trans h1, ?_⟩
+          intro q hq
+          by_cases h2a : Att s2 q
+          · obtain ⟨c', hc', hd⟩ := h2 q ⟨h2a, hq.2⟩
+            exact ⟨c', List.mem_cons_of_mem _ hc', hd.congr (fun v => (hS02.kidList_eq v).symm)⟩
+          · have := hD2 q ⟨(att_clearParent_iff s c q).mpr hq.1, h2a⟩
+            exact ⟨c, List.mem_cons_self .., this.congr (fun v => ((shrinks_clearParent s c).kidList_eq v).symm)⟩
+
+theorem detachGo_desc : ∀ (fuel : Nat) (os : Bool) (s : LState) (u : Nat) (b : Bool),
+    (detachGo fuel os s u).2 = some b → ∀ q, Unreg s (detachGo fuel os s u).1 q → Desc s u q := by
+  intro fuel
+  induction fuel with
+  | zero => intro os s u b h; simp [detachGo] at h
+  | succ fuel ih =>
+    intro os s u b hb q hq
+    unfold detachGo at hb hq
+    by_cases hd : s.detached u = true
+    · simp only [hd, if_true] at hq; exact absurd hq.1 hq.2
+    · simp only [hd, Bool.false_eq_true, if_false] at hb hq
+      by_cases hr : (!s.isAttachedRoot u) = true
+      · simp only [hr, if_true] at hq; exact absurd hq.1 hq.2
+      · simp only [hr, Bool.false_eq_true, if_false] at hb hq
+        cases hl : detachKids (detachGo fuel false) os s (s.obj u).kidList with
+        | mk s1 fl =>
+          rw [hl] at hb hq
+          cases fl with
+          | false => simp at hb
+          | true =>
+            simp only at hq
+            have hk := detachKids_desc (detachGo fuel false) os
+              (fun s c b h => (detachGo_facts fuel false s c b h).shr) (fun s c b h => ih false s c b h)
+              (s.obj u).kidList s (by rw [hl])
+            rw [hl] at hk
+            obtain ⟨hS, hD⟩ := hk
+            by_cases h1 : Att s1 q
+            · -- unregistered by the last step: it is u
+              have hatt : Att s u := by rw [← detached_eq_false_iff]; cases h : s.detached u <;> simp_all
+              have hnq := hq.2
+              unfold Att at h1 hnq
+              rw [unregister_idOf, unregister_lookup] at hnq
+              by_cases e : s1.idOf u = s1.idOf q
+              · rw [← e] at h1
+                have : s1.lookup (s.idOf u) = some q := by rw [← hS.id_eq]; exact h1
+                rcases hS.reg (s.idOf u) with h | h
+                · rw [h] at this; unfold Att at hatt; rw [hatt] at this
+                  rw [← Option.some.inj this]; exact .refl
+                · rw [h] at this; cases this
+              · simp [e] at hnq; exact absurd h1 hnq
+            · obtain ⟨c, hc, hd⟩ := hD q ⟨hq.1, h1⟩
+              exact Desc.trans_kid hc hd
 
 end PyOak.Legacy
